@@ -563,11 +563,12 @@ func RunStreamCapture(em *Emitter, tr int, st *Stream, capt *Capture) {
 		rec     *inuseRec
 		dead    bool
 		refused bool
+		gapped  map[string]bool // sub-streams of a batch this consumer refused: its readers missed (part of) that batch
 	}
 	var ladders []*ladder
 	for _, l := range st.Limits {
 		r := &inuseRec{}
-		ladders = append(ladders, &ladder{limit: l, rec: r,
+		ladders = append(ladders, &ladder{limit: l, rec: r, gapped: map[string]bool{},
 			c: arrow_record.NewConsumer(arrow_record.WithMemoryLimit(l), arrow_record.WithMeterProvider(recProvider{r: r}))})
 	}
 	type lagItem struct {
@@ -698,6 +699,14 @@ func RunStreamCapture(em *Emitter, tr int, st *Stream, capt *Capture) {
 				continue
 			}
 			ld.rec.max = ld.rec.cur
+			// a batch that continues a sub-stream this consumer has a hole in (it refused an earlier batch of it) is
+			// an IPC stream with missing messages: outside the domain, as for C07
+			state := boolp(ld.refused)
+			for _, pl := range bar.ArrowPayloads {
+				if ld.gapped[pl.SchemaId] {
+					state = 2
+				}
+			}
 			out, n, doc, dmsg, isLimit := decode(ld.c, sig, proto.Clone(bar).(*colarspb.BatchArrowRecords))
 			lim := ld.limit
 			if lim > math.MaxInt32 {
@@ -708,7 +717,7 @@ func RunStreamCapture(em *Emitter, tr int, st *Stream, capt *Capture) {
 				mx = math.MaxInt32
 			}
 			lev := map[string]any{"k": k, "sig": sig, "oc": doc, "err": dmsg, "n": n, "a": int(lim),
-				"b": int(mx), "flag": boolp(isLimit), "bid": boolp(ld.refused)}
+				"b": int(mx), "flag": boolp(isLimit), "bid": state}
 			if !bs.NoDump {
 				lev["out"] = out
 			}
@@ -717,6 +726,9 @@ func RunStreamCapture(em *Emitter, tr int, st *Stream, capt *Capture) {
 				// keep feeding the consumer: every later batch must again be decoded completely or
 				// refused with the recognisable error; only its telemetry is no longer comparable
 				ld.refused = true
+				for _, pl := range bar.ArrowPayloads {
+					ld.gapped[pl.SchemaId] = true
+				}
 			}
 		}
 		toDecode := bar
